@@ -175,6 +175,10 @@ def result_edges(fn, call_bb):
         m['otherwise'] = oth
         m['_bb'] = bb
         return m
+    # `call()?`: the result goes through Try::branch and the test is on the ControlFlow it returns (Continue = Some / Ok, Break = None / Err)
+    q = _question_mark_edges(fn, d, t['target'])
+    if q:
+        return q
     target = fn.expr_of_local(d)
     if target[0] == 'var':
         return None
@@ -218,6 +222,41 @@ def result_edges(fn, call_bb):
     return None
 
 
+def _question_mark_edges(fn, d, start, depth=0):
+    if depth > 1:
+        return None
+    aliases = move_aliases(fn, d)
+    bb = start
+    for _ in range(4):
+        b = fn.blocks[bb]
+        tt = b['term']
+        if tt is None or b['cleanup']:
+            return None
+        if tt['k'] == 'call':
+            if (tt['func'].get('fn') or '') == 'core::ops::try_trait::Try::branch' and tt['args'] and tt['args'][0]['k'] in ('copy', 'move') \
+                    and not tt['args'][0]['pl']['p'] and tt['args'][0]['pl']['l'] in aliases and tt['target'] is not None and not tt['dest']['p']:
+                r = switch_of_local(fn, tt['dest']['l'], tt['target'])
+                if not r:
+                    return None
+                sbb, m, oth = r
+                m = dict(m)
+                cont = m.get('0', oth)
+                brk = oth if '0' in m else m.get('1', oth)
+                if '1' in m:
+                    brk = m['1']
+                ty = clean_ty(fn.local_ty(d))
+                if ty.startswith('core::option::Option<'):
+                    return {'1': cont, '0': brk, 'otherwise': cont, '_bb': sbb}
+                if ty.startswith('core::result::Result<'):
+                    return {'0': cont, '1': brk, 'otherwise': brk, '_bb': sbb}
+            return None
+        if tt['k'] in ('goto', 'falseedge', 'falseunwind'):
+            bb = tt['target']
+            continue
+        return None
+    return None
+
+
 def edge_for(edges, adt, variant):
     """Target block for `variant` of a std enum in a result_edges map."""
     if edges is None:
@@ -236,6 +275,14 @@ def inner_switch(fn, local, outer_variant, start_bb):
     """Switch on discriminant((local as Variant).0) starting at start_bb (nested match on Poll<Result<..>>)."""
     bb = start_bb
     locs = move_aliases(fn, local)
+    # the payload moved into a local of its own first (`let Poll::Ready(next) = next else {..}; let Some(next) = next else {..}`)
+    payload = set()
+    for b_ in fn.blocks:
+        for s_ in b_['stmts']:
+            if s_['k'] == 'assign' and not s_['pl']['p'] and s_['rv']['k'] == 'use' and s_['rv']['op']['k'] in ('move', 'copy'):
+                pl_ = s_['rv']['op']['pl']
+                if pl_['l'] in locs and [p_['k'] for p_ in pl_['p']] == ['downcast', 'field'] and pl_['p'][0]['v'] == outer_variant and len(fn.defs().get(s_['pl']['l'], [])) == 1:
+                    payload |= move_aliases(fn, s_['pl']['l'])
     for _ in range(6):
         b = fn.blocks[bb]
         t = b['term']
@@ -245,7 +292,7 @@ def inner_switch(fn, local, outer_variant, start_bb):
             for s in b['stmts']:
                 if s['k'] == 'assign' and s['rv']['k'] == 'discr':
                     pl = s['rv']['pl']
-                    if pl['l'] in locs and any(p['k'] == 'downcast' and p['v'] == outer_variant for p in pl['p']):
+                    if (pl['l'] in locs and any(p['k'] == 'downcast' and p['v'] == outer_variant for p in pl['p'])) or (pl['l'] in payload and not pl['p']):
                         m = dict((v, tb) for v, tb in t['targets'])
                         m['otherwise'] = t['otherwise']
                         m['_bb'] = bb
